@@ -436,3 +436,17 @@ Fixpoint parse_lines {E} (parse : bytes -> option E) (ls : list bytes) : list E 
               end
   end.
 Definition read_text {E} (parse : bytes -> option E) (f : bytes) : list E * bool := parse_lines parse (getlines f).
+
+(* the writer's side of a text file: lines without '\n' inside, each terminated by '\n' *)
+Definition addnl (l : bytes) : bytes := l ++ [NL].
+Definition text_of (ls : list bytes) : bytes := flat_map addnl ls.
+Definition no_nl (l : bytes) : bool := forallb (fun b => negb (b =? NL)%N) l.
+(* complete lines inside the first n bytes, and the unterminated rest (a prefix of the next line) *)
+Fixpoint cut_lines (ls : list bytes) (n : nat) : list bytes * bytes :=
+  match ls with
+  | [] => ([], [])
+  | l :: r => if (n <=? length l)%nat then ([], firstn n l)
+              else let '(c, p) := cut_lines r (n - S (length l)) in (l :: c, p)
+  end.
+Definition expected_lines (ls : list bytes) (n : nat) : list bytes :=
+  let '(c, p) := cut_lines ls n in map addnl c ++ match p with [] => [] | _ => [p] end.
